@@ -513,15 +513,14 @@ def enumerate_entry_points():
     return eps, nonvec, len(raw)
 
 
-CORE_CLASSES = {"IntArray", "FloatArray", "DoubleArray", "V3fArray", "QuatfArray", "M44fArray", "M33fArray", "Box3f",
-                "Box2f", "Frustumf", "M44f", "ShortArray", "UnsignedCharArray"}
+CORE_CLASSES = {"IntArray", "FloatArray", "V3fArray", "QuatfArray", "M44fArray", "Box3f", "Frustumf", "M44f"}
 CORE_NAMES = re.compile(r"^__(i|r)?(add|sub|mul|div|truediv|neg|mod|eq|ne|lt|le|gt|ge)__$")
 
 
 def is_core(e):
-    if e.owner in ("Box3f", "Box2f", "Frustumf", "M44f"):
+    if e.owner in ("Box3f", "Frustumf", "M44f"):
         return True
-    if e.owner in ("QuatfArray", "M44fArray", "M33fArray"):
+    if e.owner in ("QuatfArray", "M44fArray"):
         return not CORE_NAMES.match(e.name) and not e.name.startswith("__")
     return e.owner in CORE_CLASSES and bool(CORE_NAMES.match(e.name))
 
@@ -549,18 +548,19 @@ class ArgSpec:
         self.values = values            # python element values (selected elements, in order)
         self.under = under              # masked: values of the whole underlying array
         self.idx = idx                  # masked: selected raw indices
+        self.sel = None                 # full-*: element i of the operation reads this argument at sel[i]
 
     def build(self):
         """-> (object passed to the call, underlying array or None)"""
         if self.kind == "scalar":
             return copy_elem(self.ti, self.values), None
         cls = self.ti.arraycls()
-        if self.mode == "direct":
+        if self.mode in ("direct", "full-direct"):
             a = cls(len(self.values))
             for i, v in enumerate(self.values):
                 a[i] = v
             return a, None
-        if self.mode == "masked":
+        if self.mode in ("masked", "full-masked"):
             n = len(self.under)
             u = cls(n)
             for i, v in enumerate(self.under):
@@ -572,11 +572,18 @@ class ArgSpec:
         raise ValueError(self.mode)
 
 
+def pick(s, v, i):
+    """the value argument `s` (read back as `v`) contributes to element i of the operation"""
+    if s.kind != "array":
+        return v
+    return v[s.sel[i]] if s.sel is not None else v[i]
+
+
 def make_spec(e, pos, kind, ti, lv, mode, L, rng, ds):
     role = role_for(e, pos, ti)
     if kind == "scalar":
         return ArgSpec(kind, ti, lv, "scalar", gen_value(ti, rng, ds, role))
-    if mode == "direct":
+    if mode in ("direct", "full-direct"):
         return ArgSpec(kind, ti, lv, mode, [gen_value(ti, rng, ds, role) for _ in range(L)])
     n = L + L // 3 + 3
     idx = sorted(rng.sample(range(n), L))
@@ -895,6 +902,11 @@ def combos_for(e, rng, full):
     out = []
     for r in res:
         out.append([r.get(i, "scalar") for i in range(len(e.args))])
+    # in-place operators (VectorizedVoidMaskableMemberFunction1): a masked self also accepts an argument of
+    # its UNMASKED length, read at raw_ptr_index(i)
+    if e.method and len(e.args) == 2 and e.args[0][0] == "array" and e.args[0][2] and e.args[1][0] == "array":
+        out.append(["masked", "full-direct"])
+        out.append(["masked", "full-masked"])
     return out
 
 
@@ -975,7 +987,12 @@ class Exerciser:
         o = self.o
         specs = []
         for pos, ((kind, ti, lv), mode) in enumerate(zip(e.args, modes)):
-            specs.append(make_spec(e, pos, kind, ti, lv, mode, L, rng, ds))
+            if mode.startswith("full-"):
+                sp = make_spec(e, pos, kind, ti, lv, mode, len(specs[0].under), rng, ds)
+                sp.sel = specs[0].idx
+                specs.append(sp)
+            else:
+                specs.append(make_spec(e, pos, kind, ti, lv, mode, L, rng, ds))
         kinds = kinds_label(specs)
         summ["kinds"][kinds] = summ["kinds"].get(kinds, 0) + 1
         if L not in summ["lengths"]:
@@ -997,7 +1014,7 @@ class Exerciser:
 
         def child():
             for i in range(L):
-                sargs = [copy_elem(s.ti, (v[i] if s.kind == "array" else v)) for s, v in zip(specs, vals)]
+                sargs = [copy_elem(s.ti, pick(s, v, i)) for s, v in zip(specs, vals)]
                 os.write(wr, b"%d\n" % i)
                 try:
                     scalar_eval(e, how, sargs, tti)
@@ -1015,7 +1032,7 @@ class Exerciser:
         idx = int(data.strip().split(b"\n")[-1]) if data.strip() else None
         sargs = None
         if ssig is not None and idx is not None:
-            sargs = [repr(v[idx] if s.kind == "array" else v) for s, v in zip(specs, vals)]
+            sargs = [repr(pick(s, v, idx)) for s, v in zip(specs, vals)]
         self.out.put({"t": "crash", "key": e.key, "sig": e.sig, "signal": sig, "kinds": kinds, "dataset": ds, "L": L,
                       "scalar_how": how, "scalar_signal": ssig, "scalar_index": idx if ssig is not None else None,
                       "scalar_args": sargs, "values": self.describe_values(specs), "seed": self.o["seed"]})
@@ -1180,11 +1197,22 @@ class Exerciser:
             return
         if scalar_name(e) != e.name:
             summ["scalar_ref"] = how + " (scalar method %s)" % scalar_name(e)
+        # a masked in-place operation must leave the unselected elements of the underlying array alone
+        if specs and specs[0].kind == "array" and specs[0].lv and specs[0].mode == "masked" and built[0][1] is not None:
+            after = elems(built[0][1])
+            orig = elems(before[0][1])
+            sel = set(specs[0].idx)
+            ti0 = specs[0].ti
+            for j in range(len(orig)):
+                if j not in sel and pack(ti0, flat(ti0, after[j])) != pack(ti0, flat(ti0, orig[j])):
+                    self.violate("scalar", e, kinds, "a masked in-place operation modified an element that the mask does not select",
+                                 {"L": L, "dataset": ds, "raw_index": j, "before": repr(orig[j]), "after": repr(after[j])})
+                    break
+            summ["unselected_elements_checked"] = summ.get("unselected_elements_checked", 0) + len(orig) - len(sel)
         worst, nchk, nexact, bad = 0, 0, 0, None
         fn = getattr(imath, e.name) if how == "module" else None
         for i in range(L):
-            sargs = [(v[i] if s.kind == "array" else v) for s, v in zip(specs, vals)]
-            sargs = [copy_elem(s.ti, x) for s, x in zip(specs, sargs)]
+            sargs = [copy_elem(s.ti, pick(s, v, i)) for s, v in zip(specs, vals)]
             try:
                 if how == "module":
                     r = fn(*sargs)
@@ -1335,7 +1363,7 @@ class Exerciser:
         ref = copy_elem(ti, vals[0])
         try:
             for i in range(L):
-                sargs = [copy_elem(s.ti, (v[i] if s.kind == "array" else v)) for s, v in zip(specs[1:], vals[1:])]
+                sargs = [copy_elem(s.ti, pick(s, v, i)) for s, v in zip(specs[1:], vals[1:])]
                 getattr(ref, e.name)(*sargs)
         except TypeError as ex:
             summ["scalar_ref"] = "none: scalar binding has no such overload"
@@ -1465,15 +1493,12 @@ def cmd_run(optpath, outpath):
     eps, nonvec, total = enumerate_entry_points()
     out = Out(outpath)
     ex = Exerciser(o, out)
-    sel = set(o["keys"]) if o.get("keys") is not None else None
+    byk = {e.key: e for e in eps if not e.skip}
+    order = [byk[k] for k in o["keys"] if k in byk] if o.get("keys") is not None else list(byk.values())
     prog = open(o["progress"], "a") if o.get("progress") else None
     t0 = time.time()
     done = 0
-    for e in eps:
-        if e.skip:
-            continue
-        if sel is not None and e.key not in sel:
-            continue
+    for e in order:
         if prog:
             prog.write("BEGIN %s\n" % e.key)
             prog.flush()
